@@ -49,7 +49,7 @@ def run_stream(pid, n_hist, n_ops, base_seed, profile, stats, first_hits, stop_a
             msgs = oracle(op, obs, before, after)
             if msgs:
                 hits.append((len(hits), msgs))
-        case = hist.run_history(rng, n_ops, on_step, profile=profile)
+        case = hist.run_history(rng, n_ops, on_step, profile=profile, directed=(i % 3 == 2))
         if hits:
             first_hits.append((i, case, hits[0][1]))
         cases.append(case)
